@@ -6,8 +6,10 @@ CONSTANTS
   BUGGY_F15 = FALSE
   BUGGY_F16 = FALSE
   BUGGY_F18 = FALSE
+  BUGGY_F20 = FALSE
   BUGGY_F19 = FALSE
   KeySet <- K5
+  BuildKeys <- K5
   MaxW = 1
   CurArgs <- Args6
 INVARIANTS CursorOK
